@@ -21,7 +21,7 @@ pub fn run_c02(ctx: &Ctx) -> Report {
         "exploration",
         "grammar-G module sets restricted to type assignments: 1..3 modules, 1..9 assignments, 0..12 components per constructed type, nesting to depth 4, OPTIONAL/DEFAULT/required, extension marker at any position with additions and [[ ]] groups, SET/SET OF, tagged and constrained components, direct and mutual recursion through OPTIONAL / CHOICE / SEQUENCE OF, cross-module references (plain and module-qualified), all tagging defaults. Oracle per constructed type (top-level and anonymous, located through the field's type token): member list equality (names, order, count), Rust type token vs ASN.1 type, Option<_> iff OPTIONAL, default attribute + function iff DEFAULT, set/SetOf markers, Box only on reference cycles, and acyclicity of the by-value containment graph of all generated items. Non-trivial = warning-free Ok compilation whose projection was judged; distinct by model hash.",
     );
-    rep.must_observe = vec!["members_compared".into(), "type_tokens_compared".into(), "boxes_seen".into(), "containment_graphs_checked".into()];
+    rep.must_observe = vec!["members_compared".into(), "type_tokens_compared".into(), "boxes_seen".into(), "containment_graphs_checked".into(), "collection_default_fields_compared".into()];
     rep.assumptions = vec!["reference model in oracle.rs; unique mangling-stable names map output items to model entities".into()];
     if ctx.replay.is_some() {
         return cmodel::replay(
@@ -47,7 +47,65 @@ pub fn run_c02(ctx: &Ctx) -> Report {
     let mut o = g_opts_small();
     o.qualified_refs = true;
     o.class_fields = true;
-    cmodel::run_random(ctx, "C02", 201, n / 4, &o, rep)
+    let mut rep = cmodel::run_random(ctx, "C02", 201, n / 4, &o, rep);
+    c02_collection_defaults(&mut rep);
+    rep
+}
+
+/// Components that are collections *with a DEFAULT* (grammar G gives collections OPTIONAL or nothing): the field keeps the
+/// collection kind of the source. Exhaustive over {SET OF, SEQUENCE OF} x {plain, SIZE-constrained} x element {INTEGER, BOOLEAN,
+/// reference} x default {empty list, two elements} x {SEQUENCE, SET} x {top-level, nested} x tagging default.
+fn c02_collection_defaults(rep: &mut Report) {
+    use crate::comp;
+    for tagging in ["AUTOMATIC TAGS", "IMPLICIT TAGS"] {
+        for outer in ["SEQUENCE", "SET"] {
+            for (ki, kind) in ["SET", "SEQUENCE"].iter().enumerate() {
+                for size in ["", " (SIZE (0..3))"] {
+                    for (elem, vals) in [("INTEGER", "1, 2"), ("BOOLEAN", "TRUE, FALSE"), ("Eq9", "5, 6")] {
+                        for dv in ["", vals] {
+                            for nested in [false, true] {
+                                let comp_ty = format!("{kind}{size} OF {elem} DEFAULT {{ {dv} }}");
+                                let body = if nested { format!("{outer} {{ wq1 [0] {outer} {{ fq1 [0] {comp_ty}, fq2 [1] NULL }}, wq2 [1] BOOLEAN }}") } else { format!("{outer} {{ fq1 [0] {comp_ty}, fq2 [1] NULL }}") };
+                                let src = format!("Mq1 DEFINITIONS {tagging} ::= BEGIN\nEq9 ::= INTEGER (0..9)\nTq1 ::= {body}\nEND\n");
+                                let run = comp::rasn1(&src);
+                                rep.evaluations += 1;
+                                let comp::Outcome::Ok { generated, .. } = &run.out else {
+                                    rep.count("collection_default_cases[not Ok]", 1);
+                                    continue;
+                                };
+                                let Ok(mods) = crate::proj::project(generated) else { continue };
+                                let m = &mods[0];
+                                let owner = if nested { "Tq1Wq1" } else { "Tq1" };
+                                let Some(crate::proj::Kind::Struct { fields, .. }) = m.find(owner).map(|i| &i.kind) else {
+                                    rep.count("collection_default_cases[owner absent]", 1);
+                                    continue;
+                                };
+                                let Some(f) = fields.iter().find(|f| f.name == "fq1") else { continue };
+                                rep.count("type_tokens_compared", 1);
+                                rep.count("collection_default_fields_compared", 1);
+                                rep.nontrivial.insert(hash_str(&src));
+                                // the field's own type, or the delegate it names
+                                let mut ty = f.ty.clone();
+                                if let Some(crate::proj::Kind::Struct { fields: hf, tuple: true }) = m.find(&ty).map(|i| &i.kind) {
+                                    if let Some(x) = hf.first() {
+                                        ty = x.ty.clone();
+                                    }
+                                }
+                                let want = if ki == 0 { "SetOf<" } else { "SequenceOf<" };
+                                if !ty.starts_with(want) {
+                                    rep.violations.push(Violation {
+                                        sig: format!("c02|set-of-marker|collection-with-default|want_set={}", ki == 0),
+                                        what: format!("component `fq1 {comp_ty}` is declared `{}` (resolved `{ty}`), expected {want}..>", f.ty),
+                                        replay: serde_json::json!({"origin": "collection-defaults", "asn1": src}),
+                                    });
+                                }
+                            }
+                        }
+                    }
+                }
+            }
+        }
+    }
 }
 
 // ------------------------------------------------------------------------------------------------ C05
